@@ -195,20 +195,40 @@ def run(chk):
     chk.cov["reachable_from_poll"] = len(reach)
     # ------------------------------------------------------------------ R-ONCE / R-SHADOW
     pushes = []
-    removes = []
+    removes = []          # (body the removal is in, its block, terminator, block in update_sixel_threads at which it happens)
+
+    def is_list(e):
+        tgt = strip(e)
+        return (field_of(e) == "sixels") or (tgt[0] == "var" and tgt[2] == "vec")
     for bi, t in b.calls():
         path = t["callee"].get("resolved") or ""
         if not t["args"]:
             continue
-        e = eb.operand(t["args"][0])
-        tgt = strip(e)
-        is_sixels = (field_of(e) == "sixels") or (tgt[0] == "var" and tgt[2] == "vec")
-        if not is_sixels:
+        hb = f.bodies.get(path)
+        if hb is not None and hb.kind in ("fn", "method"):
+            # the image list handed to a helper of the crate (`Self::remove_shadowed(vec, ..)`): its operations count as made here
+            for ai, a in enumerate(t["args"]):
+                if not is_list(eb.operand(a)):
+                    continue
+                heb = ExprBuilder(hb)
+                for hbi, ht in hb.calls():
+                    if not ht["args"]:
+                        continue
+                    x = strip(heb.operand(ht["args"][0]))
+                    if not (x[0] == "var" and x[1] == ai + 1):
+                        continue
+                    hp = ht["callee"].get("resolved") or ""
+                    if hp.endswith("Vec::<T, A>::remove") or hp.endswith("::swap_remove"):
+                        removes.append((hb, hbi, ht, bi))
+                    elif hp.split("::")[-1] in ("push", "insert", "extend", "append", "push_front"):
+                        pushes.append((bi, t))
+            continue
+        if not is_list(eb.operand(t["args"][0])):
             continue
         if path.endswith("Vec::<T, A>::push"):
             pushes.append((bi, t))
         elif path.endswith("Vec::<T, A>::remove") or path.endswith("::swap_remove"):
-            removes.append((bi, t))
+            removes.append((b, bi, t, bi))
         elif path.split("::")[-1] in ("insert", "extend", "append", "push_front"):
             pushes.append((bi, t))
     ok = len(pushes) == 1
@@ -249,14 +269,15 @@ def run(chk):
             chk.finding(key + "|success-path-skips-push", rule="R-ONCE", where="%s:%s" % (b.file, pushes[0][1]["line"]), fn=b.short(),
                         what="a successfully decoded image can reach the next iteration / return without being pushed (lost image)")
         # shadow removal happens before the push, and re-examines the index after a removal
-        for rbi, rt in removes:
-            ok = rbi not in b.reachable_from(pbi, avoid={lpop[0]} if lpop else set())
+        for rb_, rbi, rt, at in removes:
+            ok = at not in b.reachable_from(pbi, avoid={lpop[0]} if lpop else set())
             chk.obligation(ok)
             if not ok:
                 chk.finding(key + "|remove-after-push", rule="R-ONCE", where="%s:%s" % (b.file, rt["line"]), fn=b.short(),
                             what="shadow removal can run after the new image was pushed")
-            li = innermost_loop(b, rbi)
-            idx = eb.operand(rt["args"][1]) if len(rt["args"]) > 1 else None
+            reb = eb if rb_ is b else ExprBuilder(rb_)
+            li = innermost_loop(rb_, rbi)
+            idx = reb.operand(rt["args"][1]) if len(rt["args"]) > 1 else None
             idx = strip(idx) if idx else None
             while idx is not None and idx[0] == "cast":
                 idx = idx[2]
@@ -264,8 +285,8 @@ def run(chk):
             if li is not None and idx is not None and idx[0] == "var":
                 il = idx[1]
                 # blocks on paths remove -> inner loop head
-                after = b.reachable_from(rt["target"], avoid={li[0]}) & li[1] if rt.get("target") is not None else set()
-                writes = [(x, k) for x, k in b.defs.get(il, []) if x in after]
+                after = rb_.reachable_from(rt["target"], avoid={li[0]}) & li[1] if rt.get("target") is not None else set()
+                writes = [(x, k) for x, k in rb_.defs.get(il, []) if x in after]
                 ok = not writes
             chk.obligation(ok)
             if not ok:
@@ -332,6 +353,30 @@ def arrival_order(chk, f, poll):
             if field_of(eb.operand(t["args"][0])) == "sixels" or _alias_of_field(b, t["args"][0], "sixels"):
                 path = t["callee"].get("resolved") or t["callee"].get("path") or "?"
                 ops.append((b, t, path.split("::")[-1], path))
+    # a crate-local helper that is handed the list: what it does with that parameter are the operations (two levels deep)
+    def follow(ops_in, depth=0):
+        out = []
+        for b_, t_, nm_, path_ in ops_in:
+            hb = f.bodies.get(path_)
+            if hb is None or hb.kind not in ("fn", "method") or depth > 2:
+                out.append((b_, t_, nm_, path_))
+                continue
+            eb_ = ExprBuilder(b_)
+            which = [ai for ai, a in enumerate(t_["args"]) if field_of(eb_.operand(a)) == "sixels" or _alias_of_field(b_, a, "sixels")
+                     or (t_.get("_list_arg") == ai)]
+            heb = ExprBuilder(hb)
+            inner = []
+            for hbi, ht in hb.calls():
+                for ai2, a2 in enumerate(ht["args"][:1] if (ht["callee"].get("resolved") or "") not in f.bodies else ht["args"]):
+                    x = strip(heb.operand(a2))
+                    if x[0] == "var" and (x[1] - 1) in which and x[1] <= hb.argc:
+                        hp = ht["callee"].get("resolved") or ht["callee"].get("path") or "?"
+                        ht2 = dict(ht)
+                        ht2["_list_arg"] = ai2
+                        inner.append((hb, ht2, hp.split("::")[-1], hp))
+            out += follow(inner, depth + 1) if inner else []
+        return out
+    ops = follow(ops)
     chk.floor("R-ARRIVAL", "operations on the image list", len(ops), 8)
     for b, t, nm, path in ops:
         ok = nm in ORDER_SAFE
